@@ -30,6 +30,14 @@ func ptr[T any](v T) *T { return &v }
 var hostPool = []string{
 	"", "*.example.com", "foo.example.com", "*.foo.example.com", "bar.foo.example.com",
 	"cafe.example.com", "*.org", "bar.org",
+	// exact names exactly as long as the wildcard that covers them (single-character first label)
+	"a.example.com", "a.foo.example.com", "*.x.org", "a.x.org", "ab.x.org",
+}
+
+// (exact, covering wildcard) pairs of EQUAL string length, and one pair where the exact name is longer
+var equalLengthPairs = [][2]string{
+	{"a.example.com", "*.example.com"}, {"a.x.org", "*.x.org"}, {"a.foo.example.com", "*.foo.example.com"},
+	{"b.org", "*.org"}, {"ab.x.org", "*.x.org"},
 }
 
 // secret flavours of the emphasis generator
@@ -185,6 +193,17 @@ func Fixed() []*Case {
 		p.Gateway("default", "gw", p.DefaultClass, 2,
 			p.Listener{Name: "l0", Port: 443, Protocol: "HTTPS", Hostname: "foo.example.com", CertRefs: []string{"tls-a"}}),
 		p.HTTPRoute("default", "hr0", 3, wholeGW, nil, ruleTo("/twins", "svc-b", "team-a/svc-b")))
+	// 8./9. exact hostname of the same LENGTH as the covering wildcard, both listener orders, route accepted by both
+	for i, order := range [][2]int{{0, 1}, {1, 0}} {
+		ls := []p.Listener{
+			{Name: "exact", Port: 443, Protocol: "HTTPS", Hostname: "a.example.com", CertRefs: []string{"tls-b"}},
+			{Name: "wild", Port: 443, Protocol: "HTTPS", Hostname: "*.example.com", CertRefs: []string{"tls-a"}},
+		}
+		add(fmt.Sprintf("equal-length-exact-and-wildcard-%d", i),
+			p.TLSSecret("default", "tls-a", 1), p.TLSSecret("default", "tls-b", 2),
+			p.Gateway("default", "gw", p.DefaultClass, 2, ls[order[0]], ls[order[1]]),
+			p.HTTPRoute("default", "hr0", 3, wholeGW, []string{"a.example.com"}, ruleTo("/", "svc-a")))
+	}
 	return out
 }
 
@@ -297,6 +316,29 @@ func GenTLS(r *rng.R) *Case {
 			l.FromNS = "All"
 		}
 		ls = append(ls, l)
+	}
+	// equal-length exact/wildcard pair on one port with distinct good Secrets, either order, and a route that both accept
+	pairRouteHost := ""
+	if r.Chance(15, 100) {
+		pr := rng.Pick(r, equalLengthPairs)
+		port := rng.Pick(r, []int32{443, 8443})
+		a := p.Listener{Name: "lx", Protocol: "HTTPS", Port: port, Hostname: pr[0], CertRefs: []string{good[0]}}
+		b := p.Listener{Name: "lw", Protocol: "HTTPS", Port: port, Hostname: pr[1], CertRefs: []string{good[1]}}
+		if r.Bool() {
+			a, b = b, a
+		}
+		// drop generated listeners that would repeat (port, hostname)
+		kept := ls[:0]
+		for _, l := range ls {
+			if !(l.Port == port && (l.Hostname == pr[0] || l.Hostname == pr[1])) {
+				kept = append(kept, l)
+			}
+		}
+		ls = kept
+		pos := r.Intn(len(ls) + 1)
+		ls = append(ls[:pos], append([]p.Listener{a, b}, ls[pos:]...)...)
+		pairRouteHost = pr[0]
+		c.tag("equal-length-pair")
 	}
 	gw := p.Gateway(gwNS, "gw", p.DefaultClass, 2, ls...)
 	for i := range gw.Spec.Listeners {
@@ -422,6 +464,14 @@ func GenTLS(r *rng.R) *Case {
 	}
 
 	// ---- routes
+	if pairRouteHost != "" {
+		hs := []string{pairRouteHost}
+		if r.Chance(30, 100) {
+			hs = nil // no hostnames: accepted as the listener hostnames themselves
+		}
+		c.Objs = append(c.Objs, p.HTTPRoute(gwNS, "hr-pair", 19, []gatewayv1.ParentReference{p.ParentRef(gwNS, "gw", "")}, hs,
+			p.HTTPRule([]gatewayv1.HTTPRouteMatch{p.PathMatch("PathPrefix", "/pair")}, p.Backend{Ref: "svc-a", Port: 80, Weight: -1})))
+	}
 	svcs := []string{"svc-a", "svc-b", "svc-c", "svc-d", "svc-e"}
 	crossBackends := map[string]bool{}
 	nr := r.Range(1, 4)
